@@ -40,8 +40,7 @@ SPEC = {
     "prop": "C12",
     "lean_targets": ["InfernoVerif.Props.C12", "InfernoVerif.Model.Persist", "InfernoVerif.Drv.Proto",
                      "InfernoVerif.Gen.Prelude"],
-    # the axiom-free generic theorems live in C12Core, audited last
-    "prop_files": ["InfernoVerif/Props/C12.lean", "InfernoVerif/Props/C12Core.lean"],
+    "prop_files": ["InfernoVerif/Props/C12.lean"],
     "lemma_files": ["InfernoVerif/Lemmas/Persist.lean"],
     "model_files": ["InfernoVerif/Model/Persist.lean", "InfernoVerif/Model/RingOps.lean", "InfernoVerif/Model/Ring.lean"],
     "driver_targets": ["InfernoVerif.Model.Persist", "InfernoVerif.Drv.Proto", "InfernoVerif.Gen.Prelude"],
